@@ -1,9 +1,28 @@
 (* Props/C11_rtubin.v — C11, RTU / binary half: resynchronisation.  ONLY statements. *)
 From PM.theories Require Import Base Expr Struct FrBCode Crc FrBCommon FrRtu FrBin FrSpecB.
 From PM.Generated Require Import GenFramerB.
-From PM.proofs Require Import Crc_proofs FrB_witness_proofs.
+From PM.proofs Require Import Crc_proofs FrB_witness_proofs FrB_rtu_proofs.
 Open Scope list_scope.
 Open Scope N_scope.
+
+(* RTU, once synchronised (empty buffer; header {} or the initial dict): every valid frame, one
+   per read, is delivered by its own read and the receiver is synchronised again — for any
+   number of frames *)
+Theorem C11_rtu_after_sync : forall cfg (frames : list (N * bytes)) st,
+  r_buf st = [] -> (r_hdr st = hdr_empty \/ r_hdr st = r_hdr rtu_init) ->
+  Forall (fun f => valid_frame cfg (fst f) (snd f)) frames ->
+  rtu_feed_dels cfg st (map (fun f => spec_adu_rtu (fst f) (snd f)) frames) =
+    (map (fun f => (snd f, Z.of_N (fst f))) frames, map (fun _ => FOk) frames).
+Proof. exact rtu_one_per_read. Qed.
+Print Assumptions C11_rtu_after_sync.
+
+(* RTU resynchronisation step: whenever checkFrame rejects (False), either the buffer is untouched
+   (candidate still incomplete) or the receiver is back in the synchronised state: a
+   length-complete candidate with a bad CRC costs the whole buffer, nothing is retained *)
+Theorem C11_rtu_bad_crc_resyncs : forall cfg st st2, rtu_check cfg st = (st2, Ok false) ->
+  (r_buf st2 = [] /\ r_hdr st2 = hdr_empty) \/ r_buf st2 = r_buf st.
+Proof. exact rtu_check_false_resets. Qed.
+Print Assumptions C11_rtu_bad_crc_resyncs.
 
 (* binary, bare framer: refuted — "{}" makes struct.error escape for ever
    (finding F-C11-binary-short-brace-deaf) *)
